@@ -78,7 +78,11 @@ def run(ctx):
             return "dropped the last wwriteend event"
         tracecheck.corrupt_and_expect_reject(ctx, "TraceOwSim", files[0], mutate)
         ctx.notes["binding_selftest"] = "trace with a dropped wwriteend event rejected"
-    ctx.assumptions += ["S1: HDF5 library is harness/fakehdf5", "protocol model: <=4 generations (thorough 5), 2 model types, links between every pair of generations",
+    # (3) B3: interleavings chosen by TLC (OwSimSched.tla) forced onto the real binary through the gating hooks
+    cases3, _ = owsim.graphs(ctx, "OwSimData_3.cfg")
+    owsim.schedule_replay(ctx, cases3, binary, 8 if ctx.quick else 80, 3 if ctx.quick else 10)
+    ctx.assumptions += ["B3: schedules are drawn by TLC's simulation mode from the eager behaviours of OwSim (hook-less continuation steps first); a schedule the goroutines cannot follow is counted, not judged",
+                        "S1: HDF5 library is harness/fakehdf5", "protocol model: <=4 generations (thorough 5), 2 model types, links between every pair of generations",
                         "B1 graphs: all graphs with <=2 model types of {Input,Sum,FixedPartition,Muskingum}, <=2 generations, <=2 nodes per batch, <=2 links, T=3; a seeded sample is executed",
                         "liveness holds under FIFO service of parked channel receivers (Go runtime behaviour)"]
     return ctx.finish("model_checking")
